@@ -151,8 +151,8 @@ class err_handler(object):
         #logger.debug('add_isa loop')
         self.children.append(err_isa(self, seg_data, src))
         self.cur_isa_node = self.children[-1]
-        # a new interchange has no current group or transaction set
-        self.cur_gs_node = None
+        # a new interchange has no current transaction set (cur_gs_node is kept: the
+        # acknowledgement visitors address their reply with the group seen last)
         self.cur_st_node = None
         self.cur_seg_node = self.cur_isa_node
         self.seg_node_added = True
